@@ -332,6 +332,10 @@ func RunCheck(id, tier, repo string, seed int, updateBaseline, quiet, writeEvide
 	bySolver := map[string]int{}
 	var okNames []string
 	nParts := 0
+	statusOf := map[string]string{}
+	for _, r := range results {
+		statusOf[r.Ob.Name] = r.Res.Status
+	}
 	for _, r := range results {
 		generated[r.Ob.Name] = true
 		solverTime += r.Seconds
@@ -343,6 +347,17 @@ func RunCheck(id, tier, repo string, seed int, updateBaseline, quiet, writeEvide
 			}
 		}
 		if r.Ob.Class == "vacuity" {
+			if strings.Contains(r.Ob.Name, "/vacuity(before:") {
+				continue // only the reference point for the matching "after:" cover
+			}
+			if strings.Contains(r.Ob.Name, "/vacuity(after:") {
+				// the assumed postconditions of a call contradict the caller's state only if the call site itself was reachable
+				before := strings.Replace(r.Ob.Name, "/vacuity(after:", "/vacuity(before:", 1)
+				if r.Res.Status == "unsat" && statusOf[before] == "sat" {
+					vacuityBad = append(vacuityBad, r.Ob.Name)
+				}
+				continue
+			}
 			if r.Res.Status == "unsat" {
 				vacuityBad = append(vacuityBad, r.Ob.Name)
 			} else if r.Res.Status != "sat" {
